@@ -100,7 +100,7 @@ Proof. vm_compute. repeat split; try reflexivity. eauto. Qed.
    re-enables it, the call passes its test and the outcome is the one without toggles *)
 Definition ex_w3 : world := run ex_d 16 [] [] (firstn 3 ex_h).
 Definition ex_wt : world :=
-  mk_w (w_c ex_w3) [default_ans; mk_ans false (Some false) None 1; default_ans; mk_ans false (Some true) None 1]
+  mk_w (w_c ex_w3) [default_ans; mk_ans false (Some false) None 1 false; default_ans; mk_ans false (Some true) None 1 false]
        (w_clk ex_w3) (w_log ex_w3) (w_err ex_w3) (w_pcargs ex_w3).
 Definition ex_wn : world :=
   mk_w (w_c ex_w3) [default_ans; default_ans; default_ans; default_ans]
